@@ -745,6 +745,8 @@ func genCrop(t *rapid.T) cropCase {
 	case 2:
 		opt.AllowZeroSize, opt.AllowZeroDur = true, true
 	}
+	// durations up to 2^32-1 ticks (run index x delta and the track duration exceed 32 bits) in 1 case of 8
+	opt.ExtremeDur = rapid.IntRange(0, 7).Draw(t, "extremeDur") == 0
 	tracks := mp4build.GenTracks(t, opt)
 	// the generator puts the video track first: sometimes drop it (audio reference) or move it
 	if len(tracks) >= 2 {
